@@ -1,7 +1,7 @@
 """C17 — matching depends only on structure; quantifiers behave like regular expressions."""
 
 import ast
-import copy
+import json
 import random
 
 import c17_lib as L
@@ -24,8 +24,11 @@ RULE = ('LIST: pattern sequences over {a, b, ..., M(t=...), M(t=a), MTAG(t)} x q
         'and as pure AST targets; real result (accept/reject + every capture as index ranges) compared with the Lean '
         'model (must agree, the known re-entry defect included) and with re.fullmatch on the letter encoding (the property). '
         'STRUCTURE: corpus trees vs the pattern built from their own AST, vs every kind of single-leaf mutant, '
-        'formatted vs re-layout vs pure AST, repeated/shuffled call orders. SEARCH: list(search(p)) vs filtered walk '
-        'for every combinator over base patterns, compared with the model and with the walk oracle. '
+        'formatted vs re-layout vs pure AST, repeated/shuffled call orders. SEARCH: list(search(p)) vs filtered walk: '
+        'base patterns of four kinds (type-exact, type-plus-field incl. MTYPES with fields, AST instances incl. '
+        'expr_context instances, source/regex/callback patterns), every unary combinator (M, tagged M, MNOT, tagged MNOT, '
+        'MMAYBE, MAND(M(t=..), MTAG(t))) over every base on every program, sampled MOR/MAND (plain and tagged) pairs and '
+        'two-level nestings; compared with the walk oracle and (where modelled) with the model incl. the leaf set. '
         'distinct = distinct (pattern, target) pairs; non-trivial = the match succeeds or the pattern has a quantifier')
 TRUSTED = [
     'modelled: _match__inside_list, _match__inside_list_quantifier (phases, static-tag append, greedy back-off to the '
@@ -37,7 +40,10 @@ TRUSTED = [
     '(covered by the sweep on real constants only), FSTView targets (Dict/arguments/Compare multi-node items), MRE, '
     'MCB, search(nested=False, on=leave/both, send()); sublist bodies that can match the empty sequence (bounded '
     'quantifier) are only checked on four fixed witnesses against re (an empty slice carries no index to compare)',
-    'expr_context instances inside AST patterns are serialised as the type pattern expr_context (ctx=False)',
+    'expr_context instances inside AST patterns are serialised as the type pattern expr_context (ctx=False), as a '
+    'search pattern themselves as Pat.ctxInst; str / re / MRE / MCB patterns are not modelled: they are checked '
+    'against the walk oracle only; match option ctx=True is not modelled',
+    'MTYPES with fields is modelled for fields that exactly one of the listed classes has',
     'the `re` oracle is used only where the pattern has a faithful rendering: every tag captured at one place, '
     'references after their capture, no reference across a tagged quantifier',
 ]
@@ -94,7 +100,7 @@ def extract(ctx):
            f'def badTargets : List Nat := {lst(bad)}\n'
            + ''.join(f'def k{nm} : Nat := {num[getattr(ast, nm)]}\n' for nm in named) + '\n'
            'def kinds : Kinds :=\n  { leafOf := fun k => leafTable.getD k [], inst := fun k => instTable.getD k [], all := all,\n'
-           '    noneKind := noneKind }\n\nend Pfst.Gen.Leaf\n')
+           f'    noneKind := noneKind, ctxKind := {num[ast.expr_context]} }}\n\nend Pfst.Gen.Leaf\n')
     framework.write_if_changed(framework.LEAN / 'Pfst' / 'Gen' / 'Leaf.lean', txt)
     ctx.notes['kinds'] = n
     ctx.notes['unsound_leaf_entries'] = [classes[k].__name__ for k in unsound]
@@ -133,7 +139,7 @@ def _real_list_case(arg):
     out = []
     for xs, f, idx in _targets():
         out.append(L.real_list_match(pat, f.a if pure else f, _index_of(idx)))
-    return out
+    return json.dumps(out, separators=(',', ':'))       # compact: millions of small results are kept until the sweep
 
 
 def _gen_list_patterns(ctx):
@@ -212,6 +218,7 @@ def _corr_list(ctx):
     bad = 0
     n = 0
     for ps, a, real, mo in zip(pats, args, reals, outs):
+        real = json.loads(real) if isinstance(real, str) else real
         m = mo.get('out', mo)
         if isinstance(real, dict) or 'm' not in m:
             bad += 1
@@ -274,6 +281,7 @@ def _sweep_list(ctx):
     n_oracle = n_skipped = 0
     reported = {}
     for pi, (ps, a, real) in enumerate(zip(pats, args, reals)):
+        real = json.loads(real) if isinstance(real, str) else real
         if isinstance(real, dict):
             ctx.fail(f'C17|list-quantifier|{L.shape(ps)}|build-raised', f'pattern constructor raised: {real}', {'ps': ps, 'build': a[1:]})
             continue
@@ -360,6 +368,7 @@ def search(ctx):
     targets = L.all_targets(MAXLEN, NL)
     seen = set()
     for ps, a, real in zip(pats, args, reals):
+        real = json.loads(real) if isinstance(real, str) else real
         if isinstance(real, dict):
             continue
         if not L.has_oracle(ps):
